@@ -201,7 +201,7 @@ func (b *Buffer) ServeHTTP(w http.ResponseWriter, req *http.Request) {
 		}
 
 		var reader multibuf.MultiReader
-		if bw.expectBody(outReq) {
+		if bw.expectBody(outReq) && bw.written > 0 {
 			rdr, err := writer.Reader()
 			if err != nil {
 				b.log.Error("vulcand/oxy/buffer: failed to read response, err: %v", err)
@@ -266,6 +266,7 @@ func (b *Buffer) checkLimit(req *http.Request) error {
 type bufferWriter struct {
 	header         http.Header
 	code           int
+	written        int64
 	buffer         multibuf.WriterOnce
 	responseWriter http.ResponseWriter
 	hijacked       bool
@@ -305,6 +306,7 @@ func (b *bufferWriter) Header() http.Header {
 
 func (b *bufferWriter) Write(buf []byte) (int, error) {
 	length, err := b.buffer.Write(buf)
+	b.written += int64(length)
 	if err != nil {
 		// Since go1.11 (https://github.com/golang/go/commit/8f38f28222abccc505b9a1992deecfe3e2cb85de)
 		// if the writer returns an error, the reverse proxy panics
